@@ -1,7 +1,7 @@
 """C03 — created tapes conform to the MO5 .k7 format as read by an independent decoder"""
 import os
 
-from framework import CaseResult, text_points
+from framework import scale, CaseResult, text_points
 from props import c01
 from props.tapecommon import CaseDir, TAPE, encoded_size, gen_content, gen_source_path, materialize, real_path_of
 
@@ -14,7 +14,7 @@ ASSUMPTIONS = c01.ASSUMPTIONS
 
 
 def gen_cases(rng, tier):
-    n = 200 if tier == "quick" else 4000
+    n = scale(tier, 200, 4000)
     cases = []
     for _ in range(n):
         k = rng.choice([0, 1, 1, 2, 3, 5, 8])
